@@ -16,6 +16,13 @@ import re
 from . import common as C
 
 WITNESS = {
+    'pubRmw': 'Yaclib.RA.MP.mp_relaxed_publication_races (Mem/MP.lean): the publishing RMW without release — the writer writes the '
+              'datum, publishes; a reader that observes the published word (acquire) reads the datum: no happens-before edge, race = true '
+              '(for SetImpl: the waiter that arrives after zero observes allDone and reads what was done before Done())',
+    'counterSub': 'Yaclib.RA.RC.rc_relaxed_decrement_races / rc_relaxed_guard_races (Mem/RC.lean): every decrement must release and the '
+                  'one that concludes it was the last must acquire; with either missing the two-holder run ends with race = true',
+    'acqFence': 'Yaclib.RA.RC.rc_relaxed_guard_races (Mem/RC.lean): the thread that reaches zero does not acquire the other holders\' '
+                'releases: race = true',
     'lockAcq': 'Yaclib.RA.Lock.lock_relaxed_acquire_races (Mem/Lock.lean): thread 0 takes the lock, writes the protected '
                'datum, releases; thread 1 takes the lock with a relaxed RMW and writes the datum: no happens-before edge, race = true',
     'lockRel': 'Yaclib.RA.Lock.lock_relaxed_release_races (Mem/Lock.lean): thread 0 takes the lock, writes the protected '
